@@ -46,7 +46,7 @@ MUTANTS = [
     M("s3-filestream-identity", ["C08", "C01", "C07"], ["S3"], (U + "fat.py", "        sector  = self.sector_list[sector_index]\n", "        sector  = sector_index\n")),
     M("s4-skip-sector", ["C08", "C01"], ["S4"], (U + "sector.py", "            remaining_size -= self.sector_length\n            i += 1", "            remaining_size -= self.sector_length\n            i += 2")),
     M("s4-no-length-check", ["C08", "C15"], ["S4"], (U + "sector.py", "        if len(result) != size:\n            raise SectorReadError(f\"Wanted {size}, read {len(result)}.\")\n", "")),
-    M("s4-zero-guard-weakened", ["C08", "C01"], ["S4"], (U + "sector.py", "        if size <= 0:\n            return bytes()", "        if size < 0:\n            return bytes()")),
+    M("s4-zero-guard-weakened", ["C08"], ["S4"], (U + "sector.py", "        if size <= 0:\n            return bytes()", "        if size < 0:\n            return bytes()")),
     M("s4-first-piece-off", ["C08"], ["S4"], (U + "sector.py", "            initial_read_size = self.sector_length - initial_sector_offset", "            initial_read_size = self.sector_length - initial_sector_offset - 1")),
     M("s8-probe-no-restore", ["C09", "C11", "C16"], ["S8"], ("smpl_extract/alcohol/mdx.py", "    stream.seek(stream_head, SEEK_SET)\n\n    return result", "    return result")),
     M("s8-roland-probe-no-restore", ["C09"], ["S8"], (RO + "image.py", "    stream.seek(stream_head, SEEK_SET)\n    return result", "    return result")),
@@ -120,6 +120,9 @@ MUTANTS = [
     M("q3-latin1", ["C17", "C09"], ["Q3"], (ACT, 'with open(filename, "r", encoding="ascii") as file:', 'with open(filename, "r", encoding="latin-1") as file:')),
     M("c1-order", ["C09"], ["C1"], (ACT, "    if is_mdf_image(file_stream):\n        file_stream = MdfStream(file_stream)\n    elif is_mdx_image(file_stream):\n        file_stream = MdxStream(file_stream)\n", "    if is_mdx_image(file_stream):\n        file_stream = MdxStream(file_stream)\n")),
     # ---------------------------------------------------------------- isolation / caches
+    M("i5-slot-break", ["C02", "C14"], ["I5"], (RO + "partial_entry.py", "            except (ConstructError, UnicodeDecodeError) as e:\n                continue\n", "            except (ConstructError, UnicodeDecodeError) as e:\n                break\n")),
+    M("i5-three-slots", ["C02"], ["I5"], (RO + "partial_entry.py", "            container.parameter.sample_3,\n            container.parameter.sample_4\n", "            container.parameter.sample_3\n")),
+    M("i5-append-in-handler", ["C02", "C14"], ["I5"], (RO + "partial_entry.py", "            sample_references.append(sample_reference)\n", "            pass\n")),
     M("i1-no-realign", ["C14"], ["I1"], (AK + "file_entry.py", "                stream.seek(entry_address + table_entry_size, SEEK_SET)\n", "                pass\n")),
     M("i1-safelist-narrow", ["C14"], ["I1"], ("smpl_extract/util/constructs.py", "except (UnicodeDecodeError, ConstructError, KeyError, IndexError) as e:", "except (UnicodeDecodeError, KeyError, IndexError) as e:")),
     M("i2-flag-never-set", ["C16"], ["I2"], (AK + "volume.py", "        self._is_files_realized = True\n\n        \n    @property", "        \n    @property")),
@@ -141,6 +144,10 @@ TWINS = [
     T("tw-getpath-rename", ["C07", "C13", "C01", "C14"], (U + "fat.py", "        loop_cnt = 0\n        while loop_cnt < self.size:", "        steps = 0\n        while steps < self.size:"),
       (U + "fat.py", "            loop_cnt += 1\n", "            steps += 1\n"), (U + "fat.py", "        if loop_cnt >= self.size:", "        if steps >= self.size:")),
     T("tw-sector-assign-form", ["C08", "C13", "C01", "C15"], (U + "sector.py", "        remaining_size -= initial_read_size\n", "        remaining_size = remaining_size - initial_read_size\n")),
+    # since the G13 repair a missing empty-request guard changes read(0) at the end of a chain (C08) but no export (C01/C02/C15)
+    T("tw-export-zero-guard-weakened", ["C01", "C02", "C15"], (U + "sector.py", "        if size <= 0:\n            return bytes()", "        if size < 0:\n            return bytes()")),
+    T("tw-partial-slot-else", ["C02", "C14", "C15"], (RO + "partial_entry.py", "            except (ConstructError, UnicodeDecodeError) as e:\n                continue\n            sample_references.append(sample_reference)\n",
+      "            except (ConstructError, UnicodeDecodeError) as e:\n                pass\n            else:\n                sample_references.append(sample_reference)\n")),
     T("tw-sector-zero-guard-form", ["C08", "C01", "C15"], (U + "sector.py", "        if size <= 0:\n            return bytes()", "        if size < 1:\n            return b\"\"")),
     T("tw-stream-clamp-order", ["C08", "C11"], (U + "stream.py", "        if new_position > self.end_of_file:\n            new_position = self.end_of_file\n        elif new_position < 0:\n            new_position = 0\n",
                                                "        if new_position < 0:\n            new_position = 0\n        elif new_position > self.end_of_file:\n            new_position = self.end_of_file\n")),
